@@ -77,9 +77,46 @@ def run(prop, tier):
                 out.verdict(v, {"event": "session", "texts": ev["texts"], "ok": [o["ok"] for o in ev["outcomes"]]})
         out.extra["parse_sessions"] = pstats["sessions"]
         out.extra["parses_in_sessions"] = pstats["parses"]
+        # query sessions (QuerySession.tla): one parsed document and one context (or a fresh context per call), a series
+        # of queries; every answer and the serialization after every call are compared with the fresh ones
+        qsr = os.path.join(wd, "qs.replay")
+        qsmc = C.run_tlc("MC_QuerySession", "MC_QuerySession_%s.cfg" % tier, "qsmc", to_file=qsr, workers=4,
+                         timeout=900, keep_tags=["REPLAY", "DOC"])
+        C.tlc_must_pass(qsmc, "MC_QuerySession")
+        out.add_tlc(qsmc)
+        qst = os.path.join(wd, "qs.trace")
+        so = C.run_harness(["qs-run", "--in", qsr, "--out", qst], timeout=3000)
+        qstats = json.loads(so.strip().splitlines()[-1])
+        if qstats["sessions"] == 0 or qstats["sessions"] != 2 * (C.count_lines(qsr) - qstats["docs"]):
+            raise C.ToolError("qs-run: %s for %d replay lines" % (qstats, C.count_lines(qsr)))
+        cfgname = "Trace_QuerySession.%d.cfg" % os.getpid()
+        cfgp = os.path.join(C.SPEC, cfgname)
+        C.write_cfg(cfgp, ["SPECIFICATION TSpec", "CONSTANT Open = %s" % C.tla_set(out.open.keys()), "POSTCONDITION Done",
+                           "CHECK_DEADLOCK FALSE"])
+        try:
+            r3 = C.run_tlc("Trace_QuerySession", cfgname, "qstv", env={"TRACE": qst}, workers=1, deque=True, timeout=3000,
+                           xmx="6g")
+        finally:
+            os.unlink(cfgp)
+        C.tlc_must_pass(r3, "Trace_QuerySession")
+        if r3.distinct != C.count_lines(qst) + 1:
+            raise C.ToolError("query-session validation visited %d states for %d lines" % (r3.distinct, C.count_lines(qst)))
+        qs_events = None
+        for tg, v in r3.lines:
+            if tg == "TRUNCATED":
+                raise C.ToolError("query-session validation truncated")
+            if tg == "VERDICT":
+                if str(v.get("verdict", "")).startswith("TOOL-"):
+                    raise C.ToolError("%s on line %d of the query-session trace" % (v["verdict"], v["i"]))
+                if qs_events is None:
+                    qs_events = C.read_ndjson(qst)
+                ev = qs_events[v["i"] - 1]
+                out.verdict(v, {"event": "qsession", "d": ev["d"], "variant": ev["variant"], "qs": ev["qs"], "answers": ev["answers"]})
+        out.extra["query_sessions"] = qstats["sessions"]
+        out.extra["queries_in_query_sessions"] = qstats["queries"]
         rq = sum(len(e.get("qs", [])) for e in events if e.get("fam") != "mc")
-        out.traces = stats["sessions"] + t["rnd"] + pstats["sessions"]
-        out.evaluations = 2 * stats["queries"] + 2 * sum(len(e.get("qs", [])) for e in C.read_ndjson(rnd))
+        out.traces = stats["sessions"] + t["rnd"] + pstats["sessions"] + qstats["sessions"]
+        out.evaluations = 2 * stats["queries"] + 2 * sum(len(e.get("qs", [])) for e in C.read_ndjson(rnd)) + qstats["queries"]
         out.nontrivial_count = stats["sessions"] + t["rnd"]
         for s in stats["samples"]:
             out.sample(s)
@@ -99,6 +136,11 @@ def run(prop, tier):
             "parse sessions (ParseSession.tla): every series of 3 (thorough 4) texts out of 6 (well-formed, nested 128 and 140 "
             "deep, ill-formed, duplicate entity declarations used in a default, entities and defaults), each series in one "
             "thread, 2-3 times; outcome (accepted? serialization) compared with the text's outcome in a fresh thread",
+            "query sessions (QuerySession.tla): 4 documents (ATTLISTs for a:x and b:x with different defaults and types; unions, "
+            "parents of attributes, filters, failing predicates; prolog comment + DOCTYPE + entity; default namespace, prefix, "
+            "undeclaration) x every series of 3 (thorough 4) of their 11-12 queries, on one parse with one shared context and on "
+            "one parse with a fresh context per call; answers (node-sets as structural paths) and the serialization after "
+            "every call compared with those of a fresh parse + fresh context",
         ]
         xp._summary(out)
         return out.finish()
